@@ -1,0 +1,43 @@
+//go:build verif
+
+package compiler
+
+import (
+	"github.com/gopherjs/gopherjs/compiler/internal/dce"
+	"github.com/gopherjs/gopherjs/compiler/linkname"
+)
+
+// VerifDceSelection runs the dead-code-elimination selection exactly as
+// WriteProgramCode does (same inclusion order, same go:linkname roots) and
+// returns, for every package and every declaration (in archive order),
+// whether the declaration was selected as alive and whether it was included
+// as a go:linkname implementation.
+//
+// Verification hook for /verif property C05; add-only, compiled only with -tags verif.
+func VerifDceSelection(pkgs []*Archive) (selected [][]bool, implementsLink [][]bool) {
+	gls := linkname.GoLinknameSet{}
+	for _, pkg := range pkgs {
+		gls.Add(pkg.GoLinknames)
+	}
+
+	sel := &dce.Selector[*Decl]{}
+	implementsLink = make([][]bool, len(pkgs))
+	for i, pkg := range pkgs {
+		implementsLink[i] = make([]bool, len(pkg.Declarations))
+		for j, d := range pkg.Declarations {
+			il := gls.IsImplementation(d.LinkingName)
+			implementsLink[i][j] = il
+			sel.Include(d, il)
+		}
+	}
+	dceSelection := sel.AliveDecls()
+
+	selected = make([][]bool, len(pkgs))
+	for i, pkg := range pkgs {
+		selected[i] = make([]bool, len(pkg.Declarations))
+		for j, d := range pkg.Declarations {
+			_, selected[i][j] = dceSelection[d]
+		}
+	}
+	return selected, implementsLink
+}
